@@ -309,7 +309,7 @@ func (x idx32) MutateResults(w int, vals []int64) {
 // ---------------- generators ----------------
 
 var cols32 = []uint64{0, 1, 2, 3, 65535, 65536, 65537, 70000, 131072, 1 << 31, 1<<32 - 2, 1<<32 - 1}
-var cols64extra = []uint64{1 << 32, 1<<32 + 1, 1<<32 + 65536, 1 << 40, 1<<63 + 5, 1<<64 - 1}
+var cols64extra = []uint64{1 << 32, 1<<32 + 1, 1<<32 + 65536, 2 << 32, 2<<32 + 9, 3<<32 + 1, 5 << 32, 5<<32 + 70000, 7 << 32, 1 << 40, 1<<40 + 1, 1<<63 + 5, 1<<64 - 1}
 
 func universe(is64 bool) []uint64 {
 	if is64 {
